@@ -64,7 +64,7 @@ TRAIL = TRUNC - {"rrc"} | {"rrc"}
 
 # codec ids that Codec.C18Run.run knows; everything else is checked by the implementation-side
 # monitors only and is not sent to Coq
-MODELLED_IDS = set(range(1, 18)) | {20, 21, 22, 23}
+MODELLED_IDS = set(range(1, 18)) | {20, 21, 22, 23} | (set(range(119, 149)) - {121}) | {103, 104}
 
 
 def site_of(c):
